@@ -30,7 +30,7 @@ def fit_cases(tier):
     modes = (None, "binary", "multi-class", "categorical")
     top = 5 if tier == "thorough" else 4
     out = []
-    for ep, nt, bs, val, ev, ct, cv, rem in itertools.product(range(top), range(top), (1, 2, 3), (None, 0, 1, 2), modes, (False, True), (False, True), (0, 1)):
+    for ep, nt, bs, val, ev, ct, cv, rem in itertools.product(range(top), range(top), (1, 2, 3), (None, 0, 1, 2), modes, (False, True, "child"), (False, True, "child"), (0, 1)):
         if rem and bs == 1:
             continue
         for vr in ((False, True) if val else (False,)):
@@ -81,7 +81,7 @@ def _ckey(case):
 
 def main(tier="quick", seed=0, procs=None, only=None):
     from ..rtc import trainlog as tl
-    run = Run("C20", tier, seed, "exploration")
+    run = Run("C20", tier, seed, "other")
     run.under_contract(*["synapgrad.nn.utils.train." + f for f in ("Trainer.fit", "Trainer.test", "Evaluator.step", "Evaluator.compute")])
     run.assume("bounded stand-in: run-time contracts over an exhaustively enumerated finite configuration space; nothing is proved beyond the bound",
                "the call log is complete: optimizer, loss, evaluator, loaders and model are reached only through the logging subclasses / proxies, "
@@ -174,4 +174,13 @@ def main(tier="quick", seed=0, procs=None, only=None):
         key.update(c["fields"])
         run.violation(obl, "%s [minimal configuration: %s] [%d failing configuration(s) in this class]" % (c["what"], c["fields"], c["n"]),
                       key=key, replay=dict(c["replay"] or {}, failing_cases_in_class=c["n"], observed=c["what"]))
+    # ---- deductive part (vf/props/c20_vc.py): the update protocol for EVERY number of epochs and batches, loop contracts discharged by z3 on the real AST
+    from . import c20_vc
+    from ..pyvc.harness import TargetCase
+    from ..symreal.pool import run_catalogue
+    run.assume("deductive part: loops of Trainer.__train / __validate / fit are verified with inductive loop contracts over ghost counters (sidecar, keyed by the loop's iterable text); "
+               "callee contracts: Module.train/eval set the whole model's mode (C12/C13), model(...) leaves modes alone, no_grad follows its protocol (C07), DataLoader yields len(loader) batches (C18), "
+               "a user callback may leave the model in any mode but calls no optimizer method; fit uses __train / __validate through their proved contracts; the history dictionary is not interpreted (bounded part)",
+               "the zero-batches obligations state what the code does (UnboundLocalError): they are the deductive form of the known findings C20-zero-train-batches / C20-zero-validation-batches")
+    run_catalogue(run, [TargetCase(t) for t in c20_vc.targets()], seed=seed, procs=procs)
     return run.finish()
